@@ -49,6 +49,9 @@ fn churn(args: &[String]) {
         let mut st = rt::rt().lock();
         st.mute = true;
         st.active = false;
+        // the harness's own tables must not grow while heap bytes are being compared
+        st.allocs.reserve(1 << 14);
+        st.retired.reserve(1 << 14);
     }
     let name = format!("churn-{}{}-c{}{}{}", family, if fut { "F" } else { "" }, cap,
                        if early_drop { "-early" } else { "" }, if traffic { "-traffic" } else { "" });
